@@ -151,8 +151,41 @@ def FS.touch (fs : FS) (p : Path) (t : Int) : FS :=
 /-- `shutil.rmtree(d)` -/
 def FS.rmtree (fs : FS) (d : Path) : FS := fun q => if under d q then none else fs q
 
-inductive Err | fileNotFound | sameFile
+inductive Err
+  | fileNotFound
+  | sameFile
+  /-- `FileSystem.open` re-raises FileNotFoundError as RedunFileNotFoundError … -/
+  | redunNotFound
+  /-- … and any other OSError (here: FileExistsError of the `x` modes) as RedunOSError -/
+  | redunOS
   deriving DecidableEq, Repr, Inhabited
+
+/-! ### `File.open(mode)`: the mode string
+
+`File.open` installs the close hook (→ `update_hash()`) iff `set(mode) & {"w","a","x","+"}` is non-empty. -/
+
+/-- the test in `File.open`, on the characters of the mode string -/
+def hookInstalled (mode : List Char) : Bool := mode.any fun c => c == 'w' || c == 'a' || c == 'x' || c == '+'
+
+inductive Base | r | w | a | x
+  deriving DecidableEq, Repr, Inhabited
+
+/-- Python's reading of a mode string: exactly one of r/w/a/x, optional `+`, optional b/t; anything else is a ValueError -/
+def parseMode (mode : List Char) : Option (Base × Bool) :=
+  let bases := mode.filterMap fun c =>
+    if c == 'r' then some Base.r else if c == 'w' then some Base.w else if c == 'a' then some Base.a
+    else if c == 'x' then some Base.x else none
+  let ok := mode.all fun c => c == 'r' || c == 'w' || c == 'a' || c == 'x' || c == '+' || c == 'b' || c == 't'
+  match bases with
+  | [b] => if ok && (mode.filter (· == '+')).length ≤ 1 && (mode.filter fun c => c == 'b' || c == 't').length ≤ 1
+           then some (b, mode.contains '+') else none
+  | _ => none
+
+/-- the stream permits writing -/
+def canWrite (m : Base × Bool) : Bool := m.1 != Base.r || m.2
+
+/-- write `data` at position 0 of an existing file without truncating (`r+`) -/
+def overwriteAt0 (old data : Bytes) : Bytes := data ++ old.drop data.length
 
 /-- `LocalFileSystem.copy` = `shutil.copyfile(src, dst)`; the new file's mtime is the clock `t` -/
 def FS.copy (fs : FS) (src dst : Path) (t : Int) : Except Err FS :=
